@@ -234,8 +234,6 @@ func c37Run(raw json.RawMessage) (Case, error) {
 	}
 	upHdrs := c37FromHeader(up.Header, dropReq)
 	gotHdrs := c37FromHeader(w.hdr, map[string]bool{"Date": true, "Content-Length": true})
-	target := up.Path
-	_ = target
 	coqReq := func(method, target, body string, hs []c37Hdr, remote string) string {
 		return fmt.Sprintf("{| q_method := %s; q_target := %s; q_body := %s; q_hdrs := %s; q_remote := %s |}",
 			cq.Str(method), cq.Str(target), cq.Str(body), c37CoqHdrs(hs), cq.Str(remote))
